@@ -297,7 +297,11 @@ func fixCodeByOffset(code []ByteCode, offset int) {
 	for index, i := range code {
 		switch i.T {
 		case typeDetailMark:
-			v := i.Value.(BufferSpan)
+			v, ok := i.Value.(BufferSpan)
+			if !ok {
+				// 指令区溢出后, 跳转回填可能落在最后一条指令上; 这样的程序稍后会被拒绝
+				continue
+			}
 			v.Begin -= IntType(offset)
 			v.End -= IntType(offset)
 			code[index].Value = v
